@@ -33,8 +33,9 @@ def main():
     demos = [p for p in glob.glob(os.path.join(src, "*")) if os.path.basename(p) not in ("patch.diff", "README.md", "meta.json")]
     wt = "/var/tmp/seed-%s-%s" % (prop, slug)
     sh(["git", "-C", "/repo", "worktree", "remove", "--force", wt])
-    rc, o = sh(["git", "-C", "/repo", "worktree", "add", "-q", "--detach", wt, "HEAD"])
-    meta = {"property": prop, "slug": slug, "repo_head": sh(["git", "-C", "/repo", "rev-parse", "--short", "HEAD"])[1].strip(), "ran": []}
+    base = os.environ.get("SEED_BASE", "HEAD")  # the commit the change was written against
+    rc, o = sh(["git", "-C", "/repo", "worktree", "add", "-q", "--detach", wt, base])
+    meta = {"property": prop, "slug": slug, "repo_head": sh(["git", "-C", "/repo", "rev-parse", "--short", base])[1].strip(), "ran": []}
     try:
         # place the demo
         placed = []
